@@ -8,6 +8,7 @@ import gens
 FAMILIES = ['component']
 BRIDGES = ['br_vp_', 'br_hvap_', 'br_cp', 'br_cool']
 PROPS_V = 'Props/C13.v'
+EXTRA_TARGETS = ['Model/NumCheck.vo']
 BUDGET = {'quick': 1200, 'thorough': 30000}
 ORACLE_RULE = ('built-in components and random Antoine/Frost constant sets x T in 200..500 K (Antoine: at least 15 K from the pole) ; '
                'random cubic Cp polynomials incl. exact-zero coefficients x random temperature triples; '
@@ -71,6 +72,14 @@ def oracle(rng, tier):
         case = comp_desc(c)
         case.update(extra)
         yield {'kind': c.vapour_pressure_constants.type, 'case': case, 'ok': ok, 'detail': detail}
+
+
+def correspondence(tier, seed):
+    import corr_numeric
+    budget = {'component': 60}
+    if tier == 'thorough':
+        budget = {k: v * 12 for k, v in budget.items()}
+    return corr_numeric.run(seed, budget, nmax=30 if tier == 'quick' else 200, tag='C13')
 
 
 def replay(rep):
